@@ -2,7 +2,7 @@ CONSTANTS
   Texts <- MCTexts
   VarNames <- MCVars
   CompNames <- MCComps
-  MaxTokens = 6
+  MaxTokens = 5
   MaxDepth = 3
 SPECIFICATION MCSpec
 INVARIANTS Canonical RoundTripMC DenoteIsSource EmitCases EmitScale ScaleRoundTrip
